@@ -12,6 +12,7 @@ from ..leanbuild import run_driver
 
 ID = "C15"
 LEVEL = "proof"
+EXTRA_TARGETS = ["MG.DriverCtx"]
 THEOREMS = {
     "MG.Proofs.C15": [
         "MG.C15.exit_restores_entry",
@@ -344,7 +345,7 @@ def run(ctx: Ctx) -> Outcome:
         index.append((wi, "reset", None))
         lines.append("ctx run " + " ".join(encode(w)))
         index.append((wi, "run", (final, exc)))
-    obs = run_driver(lines)
+    obs = run_driver(lines, driver="MG/DriverCtx.lean")
     bad_words = {}
     for (wi, e, g), o in zip(index, obs):
         if e == "reset":
